@@ -470,6 +470,8 @@ def _list(I, args, kw):
     seq = ex.as_symbolic_seq(v)
     if seq is not None:
         return HList(sym=SSeq(seq.t, seq.elem))
+    if is_tagged(v, "rangeslice"):
+        return HList(sym=ex.fresh("range_items", ("seq", "int")))
     if is_tagged(v, "dictitems-first"):
         present, item = _first_item_of(I, v[1])
         return HList(items=[item] if present else [])
